@@ -7,7 +7,7 @@ jump changes", that Reset/Cancel restore bytes and behaviour of everything the b
 map iteration may cancel), idempotence of Reset, re-mock after Reset, and non-interference between targets.  The jump
 emitter and the NOP-sentinel test inside the model are the definitions regenerated from the Go source on every run (tie T).
 
-Tie X: a virtual user package (harness/c02) with 17 targets (functions, methods, an unexported function, a generic instantiation, func literals and a closure held in variables, a method family ending in the letters of the -fm suffix) runs generated histories through goom's public API; after EVERY
+Tie X: a virtual user package (harness/c02) with 20 targets (functions, methods, unexported functions, two instantiations of a generic, func literals and a closure held in variables, a method family ending in the letters of the -fm suffix, a namesake type and a namesake function in a second package) runs generated histories through goom's public API; after EVERY
 step the probe compares the whole executable image of its own process with a snapshot taken before the first step and calls
 every target and three untouched neighbours; `goomdrv` predicts the same line from the model.  The oracle below states the
 property on the implementation's observations without using the model.
@@ -41,11 +41,12 @@ META = {
                   'Guard.Restore/UnpatchAll, concurrency (C11). Kept mocker handles (keep / Apply / Return / Cancel through the handle, every via incl. by-name and method values) '
                   'and the two-level Struct(x) -> Method(m)/ExportMethod(m) lookup with a kept struct mocker are modelled ops (plus the older oracle-only lane c02.stale, defect F16); the generators never look a function up afresh while its '
                   'kept handle is cancelled: that orphans the handle (the builder replaces its cache entry, Reset cannot reach the old mocker) — '
-                  'recorded in Findings/C02Orphan.lean.',
+                  'known finding F27-c02-orphan, exercised in its own lane (the main lane keeps the restriction so that every other violation stays visible). '
+                  'Same-gc-shape generic instantiations share one body: known finding F28-c02-gcshape (lane c02.shape). Faithful instances need builder ids < 100 and target ids < 1000.',
 }
 
 GEN = ['JmpAmd64']
-NT, NP = 19, 4
+NT, NP = 20, 4
 T_METHODS = {7, 8, 9}               # methods of T: Struct(&T{}).Method / ExportMethod, ExportStruct("*T").Method, method expression, by name, method value
 L_METHODS = {12, 13, 14, 15, 16}    # the family Add / Addf / Addm / Addfm / Addmf of L: method expression, by name, method value
 S_METHODS = {17}                    # M7 of the namesake type T of a second package (same Type.String()): Struct(&sub.T{}).Method, expression, value
@@ -53,13 +54,27 @@ LITERALS = {10, 11}                 # func literal in a package variable, closur
 GENERICS = {5, 18}                  # one generic function instantiated at int and at int64 (different shapes, same name)
 METHODS = T_METHODS | L_METHODS | S_METHODS
 VIAS = {0: 'fe', 1: 'fe', 2: 'fe', 3: 'fe', 4: 'fe', 5: 'f', 6: 'fe', 7: 'fmeuvx', 8: 'fmeuvx', 9: 'feuvx', 10: 'f', 11: 'f',
-        12: 'fevv', 13: 'fevv', 14: 'fevv', 15: 'fevv', 16: 'fevv', 17: 'fmmv', 18: 'f'}
+        12: 'fevv', 13: 'fevv', 14: 'fevv', 15: 'fevv', 16: 'fevv', 17: 'fmmv', 18: 'f', 19: 'p'}
 
 # goom reads these from the environment of the process it runs in (GOOM_DEBUG wraps every callback in a MakeFunc stub):
 # the probes must not inherit them from whoever calls the check
 for _k in [k for k in os.environ if k.startswith('GOOM_')]:
     os.environ.pop(_k)
 RUN = str(os.getpid())                # scratch-file tag: concurrent runs of this check do not share ops/out files
+
+
+def _cleanup():
+    import glob
+    if not os.environ.get('VERIF_KEEP'):
+        for f in glob.glob(os.path.join(C.BUILD, f'c02.{RUN}.*')):
+            try:
+                os.remove(f)
+            except OSError:
+                pass
+
+
+import atexit
+atexit.register(_cleanup)
 
 CORPUS = [  # hand-written scenarios that always run first (1 builder unless the first token says otherwise)
     '1 | a 0 f 0 1 ; x 0 ; x 0 ; a 0 f 0 2 ; x 0',
@@ -97,6 +112,7 @@ CORPUS = [  # hand-written scenarios that always run first (1 builder unless the
     '2 | a 0 f 5 1 ; a 0 f 18 2 ; r 1 f 18 3 ; r 1 f 5 4 ; c 0 f 18 ; x 1 ; x 0',
     '1 | a 0 f 0 1 ; ab 0 f 0 ; ab 0 f 3 ; r 0 f 3 1 ; ab 0 f 3 ; x 0',
     '2 | Y 0 ; a 0 f 1 1 ; Y 1 ; a 1 e 4 2 ; a 1 e 0 3 ; x 0 ; x 1',
+    '2 | a 0 e 4 1 ; a 0 p 19 2 ; a 1 p 19 3 ; a 1 e 4 0 ; c 0 p 19 ; x 1 ; x 0',     # same name, two packages: Pkg(path).ExportFunc
     '2 | a 1 e 4 1 ; a 1 x 7 2 ; a 1 u 9 3 ; k 1 e 2 ; A 1 e 2 0 ; x 1',
     # two-level struct lookup: K keeps sm := b.Struct(x); sa/sr/sw/sc/sk go through sm, a/r/w/c/k through a fresh b.Struct(x)
     '1 | K 0 ; a 0 m 7 1 ; sa 0 m 8 2 ; x 0 ; x 0',
@@ -106,7 +122,7 @@ CORPUS = [  # hand-written scenarios that always run first (1 builder unless the
     '1 | K 0 ; sk 0 m 8 ; A 0 m 8 1 ; C 0 m 8 ; A 0 m 8 2 ; c 0 m 8 ; x 0',
     '1 | K 0 ; K 0 ; sw 0 m 8 1 3 ; a 0 u 9 1 ; sc 0 u 9 ; sa 0 u 9 2 ; x 0',
 ]
-MALFORMED = ['1 | a 0 q 0 1', '1 | a 0 m 0 1', '1 | a 3 f 0 1', '1 | z 0', '1 | a 0 f 0 9', '1 | a 0 f 0 1 3', '1 | a 0 f 0', '1 | w 0 u 9 1', '1 | w 0 f 7 1', '1 | w 0 f 5 1', '1 | A 0 f 0 1', '1 | k 0 f 0 ; C 0 e 0', '1 | k 0 v 0', '1 | k 0 f 0 1', '1 | sa 0 m 7 1', '1 | K 0 ; sa 0 f 0 1', '1 | K 0 1', '1 | K 0 ; sa 0 e 7 1', '1 | a 0 e 10 1', '1 | a 0 m 12 1', '1 | a 0 v 12 1 3', '1 | a 0 f 19 1', '1 | a 0 v 10 1', '1 | a 0 e 17 1', '1 | a 0 x 12 1', '1 | ab 0 e 0', '1 | Y 0 1', '1 | w 0 f 18 1', '1 | a 0 f 18 1 0', '1 | K 0 ; sa 0 m 17 1']
+MALFORMED = ['1 | a 0 q 0 1', '1 | a 0 m 0 1', '1 | a 3 f 0 1', '1 | z 0', '1 | a 0 f 0 9', '1 | a 0 f 0 1 3', '1 | a 0 f 0', '1 | w 0 u 9 1', '1 | w 0 f 7 1', '1 | w 0 f 5 1', '1 | A 0 f 0 1', '1 | k 0 f 0 ; C 0 e 0', '1 | k 0 v 0', '1 | k 0 f 0 1', '1 | sa 0 m 7 1', '1 | K 0 ; sa 0 f 0 1', '1 | K 0 1', '1 | K 0 ; sa 0 e 7 1', '1 | a 0 e 10 1', '1 | a 0 m 12 1', '1 | a 0 v 12 1 3', '1 | a 0 f 20 1', '1 | a 0 e 19 1', '1 | a 0 p 4 1', '1 | a 0 v 10 1', '1 | a 0 e 17 1', '1 | a 0 x 12 1', '1 | ab 0 e 0', '1 | Y 0 1', '1 | w 0 f 18 1', '1 | a 0 f 18 1 0', '1 | K 0 ; sa 0 m 17 1']
 
 
 def gen_history(rng, maxlen=25, allow_orphan=False):
@@ -186,7 +202,7 @@ def gen_history(rng, maxlen=25, allow_orphan=False):
             continue
         o = ''
         if rng.chance(1, 4):
-            o = ' 3' if t in T_METHODS else ('' if (t in METHODS or t == 18) else f' {rng.below(3)}')
+            o = ' 3' if t in T_METHODS else ('' if (t in METHODS or t >= 18) else f' {rng.below(3)}')
         if r < 75:
             steps.append(f'{pre}a {b} {via} {t} {rng.below(4)}{o}')
         elif r < 90:
@@ -662,7 +678,7 @@ def run(tier):
         'evaluations': sum(len(h.split(' ; ')) for h in hists), 'histories': len(hists), 'distinct_nontrivial': nontrivial,
         'traces_validated_against_impl': len(hists) - len(diffs),
         'rule': 'one evaluation = one history step, after which the whole executable image (see layout.text bytes) is compared with the snapshot and '
-                'all 17 targets + 3 neighbours are called; non-trivial = distinct history in which at least one entry jump was observed in the image',
+                'all 20 targets + 3 neighbours are called; non-trivial = distinct history in which at least one entry jump was observed in the image',
         'distribution': dict(stats(hists, impl), layout=layout, env=envline, gen_modules_changed_this_run=changed),
         'stale_handle_lane': {'lines': len(STALE), 'failing': len(stale_bad), 'note': 'oracle on the implementation only; not part of the model'},
         'orphan_lane': {'histories': len(orphan), 'with_known_finding': len(known_hits)},
